@@ -65,7 +65,7 @@ func probeMachine(c *cpu.CPU6502, cfg *emuconfig.Config) string {
 			div = "1"
 		}
 	})
-	// ports: what appears on stdout when 5 bytes are stored to each configured port address, in key order
+	// ports: what appears on stdout when 260 bytes are stored to each configured port address, in key order
 	keys := []int{}
 	for k := range cfg.IoAddrConfig {
 		keys = append(keys, int(k))
@@ -74,7 +74,8 @@ func probeMachine(c *cpu.CPU6502, cfg *emuconfig.Config) string {
 	out, _ := captureStdout(func() {
 		for _, k := range keys {
 			a := uint16(cfg.IoMask)<<8 | uint16(k)
-			for _, v := range []uint8{0x41, 0xC1, 0x0A, 0x7B, 0x30} {
+			for i := 0; i < 260; i++ {
+				v := uint8(i*7 + 3)
 				protect(func() { c.Mem.Store(a, v) })
 			}
 		}
@@ -142,7 +143,7 @@ func configStream(seed uint64, n int) {
 	models := []string{"6502", "65C02", "", "6510", "65c02", "65C02 "}
 	specs := append(append([]string{}, memSpecs...), "Linear8K", "linear64k", "")
 	asms := []string{"", "acme", "64tass", "ca65", "ACME", "nasm"}
-	ports := []string{"stdout:16", "stdout:1", "stdout:4", "stdout:bin", "printer:petscii", "printer:ascii", "stdout:", "stdout:1x", "stdin:4",
+	ports := []string{"stdout:16", "stdout:1", "stdout:4", "stdout:bin", "printer:petscii", "stdout:255", "stdout:256", "stdout:259", "stdout:300", "stdout:0", "printer:ascii", "stdout:", "stdout:1x", "stdin:4",
 		"printer:", " stdout:16", "stdout:16 ", "stdout:00008", "STDOUT:16", "printer:petscii2", "stdout:bin2"}
 	// the acceptance grid
 	for _, m := range models {
@@ -163,12 +164,12 @@ func configStream(seed uint64, n int) {
 		for k := 0; k < r.Intn(4); k++ {
 			p := ports[r.Intn(len(ports))]
 			if r.Chance(60) {
-				p = ports[r.Intn(5)]
+				p = ports[r.Intn(10)]
 			}
 			io[uint8(0xD0+r.Intn(8))] = p
 		}
 		flags := []uint8{0, 1, 4, 5, 2, 8, 7}[r.Intn(7)]
-		emit(configCase(m, s, asms[r.Intn(4)], uint8([]int{0x2D, 0x10, 0x7F}[r.Intn(3)]), io, flags, 0x0200))
+		emit(configCase(m, s, asms[r.Intn(4)], uint8([]int{0x2D, 0x10, 0x7F, 0x00, 0xFF, 0x02}[r.Intn(6)]), io, flags, 0x0200))
 		count("config.random")
 	}
 }
